@@ -8,6 +8,7 @@
    shares_of c = int64(math.Round(1024 * frac c)) (1024 when frac c = 0),
    as binary64 computations. *)
 From Coq Require Import ZArith List String.
+From Flocq Require Import IEEE754.BinarySingleNaN IEEE754.Binary IEEE754.Bits.
 From Verif Require Import Base.GoFloat Base.GoInt Engine.Docker Engine.DockerProofs.
 Import ListNotations.
 Local Open Scope Z_scope.
@@ -92,6 +93,17 @@ Theorem C31_decimal_grid : forall k, 1 <= k <= 6400 ->
   shares_of (hundredth k) = (let r := k mod 100 in if r =? 0 then 1024 else (2 * 1024 * r + 100) / 200).
 Proof. exact grid_exact. Qed.
 Print Assumptions C31_decimal_grid.
+
+(* the conversion used for the quota and the shares, int64(math.Round(y)), yields an
+   integer nearest to the exact value of the float y (pure integer arithmetic on
+   mantissa and exponent, every finite y): |z * den - num| * 2 <= den for |y| = num/den *)
+Theorem C31_round_is_nearest : forall s m e H,
+  let a : f64 := B754_finite 53 1024 s m e H in
+  let z := if s then - f_round_Z a else f_round_Z a in
+  let '(num, den) := mag_frac (Zpos m) e in
+  0 < den /\ 0 <= z /\ Z.abs (z * den - num) * 2 <= den.
+Proof. exact round_nearest. Qed.
+Print Assumptions C31_round_is_nearest.
 
 (* before the repairs: truncation gave 0.29 cpu a quota of 28999us, and updating
    an unbound workload with limit 0.5 gave it quota -1 (unrestricted) *)
